@@ -6702,3 +6702,104 @@ func ruleParamPresence(w *World, r *Report) {
 		r.ok("PARAM-PRESENCE", key, w.Pos(fn.Pos()), itoa(n)+" direct presence test(s) of request keys, none decides a System operation")
 	}
 }
+
+// CRON-INFLIGHT (C15, C16): a job that is running can still be removed.
+func ruleCronInflight(prop string) ruleFn {
+	return func(w *World, r *Report) {
+		r.Rule("CRON-INFLIGHT", "the in-memory cron takes a due job out of the timeline before it runs it and puts a recurring one back afterwards (CRON-RESCHED), so while the job's function runs it is in no timeline.  Therefore (a) Cron.rem, besides scanning the timeline, looks the id up in a set of running jobs (a map field of Cron keyed by the id) and marks the job it finds there (a store into a CronJob field), and (b) in Cron.schedule the insertion is control-dependent on that mark (read directly or through a method of Cron): a job removed — or replaced, which removes first — while it runs stays out.  Without it a Rem in that window answers `not found` and the job ticks for ever, and a replacement is evicted by the job it replaced", 2)
+		rem := w.Method("cron", "Cron", "rem")
+		sched := w.Method("cron", "Cron", "schedule")
+		insert := w.Method("cron", "Cron", "insert")
+		// (a)
+		var idParam ssa.Value
+		for _, p := range rem.Params {
+			if b, ok := p.Type().Underlying().(*types.Basic); ok && b.Kind() == types.String {
+				idParam = p
+			}
+		}
+		looksUp := false
+		flag := ""
+		allInstrs(rem, func(in ssa.Instruction) {
+			if lk, ok := in.(*ssa.Lookup); ok && idParam != nil && dependsOn(lk.Index, func(v ssa.Value) bool { return v == idParam }) {
+				if n, _, _, ok := loadedField(resolveSpill(lk.X)); ok && typeKey(n) == "cron.Cron" {
+					if _, isMap := lk.X.Type().Underlying().(*types.Map); isMap {
+						looksUp = true
+					}
+				}
+			}
+			if st, ok := in.(*ssa.Store); ok {
+				if n, f, _, ok := fieldOf(st.Addr); ok && typeKey(n) == "cron.CronJob" {
+					flag = f
+				}
+			}
+		})
+		keyA := "fn=" + fname(rem)
+		if looksUp && flag != "" {
+			r.ok("CRON-INFLIGHT", keyA, w.Pos(rem.Pos()), "rem also finds a job that is running, and marks it (CronJob."+flag+")")
+		} else {
+			r.violation("CRON-INFLIGHT", keyA, w.Pos(rem.Pos()), "rem only scans the timeline: a job whose function is running is not found, is put back after the tick and fires for ever")
+		}
+		// (b)
+		keyB := "fn=" + fname(sched)
+		var inserts []ssa.Instruction
+		allInstrs(sched, func(in ssa.Instruction) {
+			if c := callOf(in); c != nil && c.StaticCallee() == insert {
+				inserts = append(inserts, in)
+			}
+		})
+		if len(inserts) == 0 {
+			r.exempt("CRON-INFLIGHT", keyB, w.Pos(sched.Pos()), "schedule does not call insert: shape not recognised, not decided")
+			return
+		}
+		readsFlag := func(f *ssa.Function) bool {
+			found := false
+			allInstrs(f, func(in ssa.Instruction) {
+				if u, ok := in.(*ssa.UnOp); ok && u.Op == token.MUL {
+					if n, fl, _, ok := fieldOf(u.X); ok && typeKey(n) == "cron.CronJob" && fl == flag {
+						found = true
+					}
+				}
+			})
+			return found
+		}
+		pred := func(v ssa.Value) bool {
+			if n, fl, _, ok := loadedField(v); ok && typeKey(n) == "cron.CronJob" && fl == flag {
+				return true
+			}
+			if c, ok := v.(*ssa.Call); ok {
+				if f := c.Common().StaticCallee(); f != nil && f.Signature.Recv() != nil && readsFlag(f) {
+					return true
+				}
+			}
+			return false
+		}
+		okB := flag != ""
+		for _, ins := range inserts {
+			// some branch on the mark has one side that cannot reach the insertion (the path that puts a job back; the
+			// path that adds a new job does not pass that branch)
+			guarded := false
+			for _, b := range sched.Blocks {
+				if len(b.Instrs) == 0 {
+					continue
+				}
+				ifi, ok := b.Instrs[len(b.Instrs)-1].(*ssa.If)
+				if !ok || !dependsOn(ifi.Cond, pred) {
+					continue
+				}
+				r0 := b.Succs[0] == ins.Block() || blockReaches(b.Succs[0], ins.Block(), b)
+				r1 := b.Succs[1] == ins.Block() || blockReaches(b.Succs[1], ins.Block(), b)
+				if r0 != r1 {
+					guarded = true
+				}
+			}
+			if !guarded {
+				okB = false
+			}
+		}
+		if okB {
+			r.ok("CRON-INFLIGHT", keyB, w.PosOf(inserts[0]), "a job marked as removed while it ran is not inserted again")
+		} else {
+			r.violation("CRON-INFLIGHT", keyB, w.PosOf(inserts[0]), "schedule puts a job back whether or not it was removed or replaced while it ran")
+		}
+	}
+}
